@@ -98,11 +98,154 @@ static int op_scaled(toks_t *t)
   return 1;
 }
 
+/* yuvcontent <w> <h> <subsamp> <sfidx> <pf> <stridemode> <align> <seed>
+ * Oracle on the real library only (the model answers "skip"):
+ *  (1) per-plane decompress-to-YUV == unified decompress-to-YUV at the documented offsets
+ *  (2) decode-planes(planes) == direct decompress with fast upsampling (same scale)
+ *  (3) at scale 1/1: planes == raw-data decode cropped to the plane size
+ *  (4) bytes in stride padding keep their previous value
+ * stridemode: 0 NULL strides, 1 all zero, 2 explicit padded, 3 {padded,0,0}, 4 {0,padded,padded} */
+static unsigned long long yc_state;
+static unsigned yc_next(void)
+{
+  yc_state ^= yc_state << 13; yc_state ^= yc_state >> 7; yc_state ^= yc_state << 17;
+  return (unsigned)(yc_state >> 32);
+}
+
+static int op_yuvcontent(toks_t *t)
+{
+  int w = (int)tl(t, 1), h = (int)tl(t, 2), ss = (int)tl(t, 3), sfi = (int)tl(t, 4), pf = (int)tl(t, 5);
+  int smode = (int)tl(t, 6), align = (int)tl(t, 7);
+  int nsf = 0, i, x, y, nc = ss == TJSAMP_GRAY ? 1 : 3, bad = 0, sw, sh, ps = tjPixelSize[pf];
+  tjscalingfactor *sfs = tj3GetScalingFactors(&nsf), sf;
+  tjhandle hc = tj3Init(TJINIT_COMPRESS), hd = tj3Init(TJINIT_DECOMPRESS);
+  unsigned char *rgb = (unsigned char *)malloc((size_t)w * h * 3), *jpeg = NULL;
+  unsigned char *planes[3] = { NULL, NULL, NULL }, *uni = NULL, *p1 = NULL, *p2 = NULL;
+  int strides[3] = { 0, 0, 0 }, pw[3], ph[3], st[3];
+  size_t jsize = 0;
+  char why[200] = "";
+  yc_state = 0x2545F4914F6CDD1DULL ^ (unsigned long long)tl(t, 8) * 0x9E3779B97F4A7C15ULL;
+  for (y = 0; y < h; y++) for (x = 0; x < w; x++) {
+    unsigned r = yc_next();
+    rgb[(y * w + x) * 3 + 0] = (unsigned char)((x * 7 + (r & 63)) & 255);
+    rgb[(y * w + x) * 3 + 1] = (unsigned char)((y * 5 + ((r >> 8) & 63)) & 255);
+    rgb[(y * w + x) * 3 + 2] = (unsigned char)(((x + y) * 3 + ((r >> 16) & 127)) & 255);
+  }
+  sf = sfs[sfi % nsf];
+  tj3Set(hc, TJPARAM_SUBSAMP, ss); tj3Set(hc, TJPARAM_QUALITY, 90);
+  if (tj3Compress8(hc, rgb, w, 0, h, TJPF_RGB, &jpeg, &jsize) < 0) { printf("R skip compress-failed\n"); goto done; }
+  if (tj3DecompressHeader(hd, jpeg, jsize) < 0 || tj3SetScalingFactor(hd, sf) < 0) { printf("R skip header\n"); goto done; }
+  sw = TJSCALED(w, sf); sh = TJSCALED(h, sf);
+  for (i = 0; i < nc; i++) {
+    pw[i] = tj3YUVPlaneWidth(i, sw, ss); ph[i] = tj3YUVPlaneHeight(i, sh, ss);
+    st[i] = pw[i];
+    if (smode == 2 || (smode == 3 && i == 0) || (smode == 4 && i > 0)) st[i] = pw[i] + 5 + i;
+    strides[i] = (smode == 0 || smode == 1) ? 0 : (st[i] == pw[i] ? 0 : st[i]);
+    planes[i] = (unsigned char *)malloc((size_t)st[i] * ph[i] + 16);
+    memset(planes[i], 0xA5, (size_t)st[i] * ph[i] + 16);
+  }
+  printf("R content %dx%d ss=%d sf=%d/%d\n", sw, sh, ss, sf.num, sf.denom);
+  if (tj3DecompressToYUVPlanes8(hd, jpeg, jsize, planes, smode == 0 ? NULL : strides) < 0) {
+    snprintf(why, sizeof(why), "tj3DecompressToYUVPlanes8: %s", tj3GetErrorStr(hd)); bad = 1; goto verdict;
+  }
+  for (i = 0; i < nc && !bad; i++)          /* (4) padding untouched */
+    for (y = 0; y < ph[i] && !bad; y++)
+      for (x = pw[i]; x < st[i]; x++)
+        if (planes[i][(size_t)y * st[i] + x] != 0xA5) { bad = 1; snprintf(why, sizeof(why), "stride padding of plane %d written", i); break; }
+  /* (1) unified buffer */
+  if (!bad) {
+    size_t usz = tj3YUVBufSize(sw, align, sh, ss), off = 0;
+    uni = (unsigned char *)malloc(usz + 1);
+    memset(uni, 0x5A, usz + 1);
+    if (tj3DecompressToYUV8(hd, jpeg, jsize, uni, align) < 0) { bad = 1; snprintf(why, sizeof(why), "tj3DecompressToYUV8: %s", tj3GetErrorStr(hd)); }
+    for (i = 0; i < nc && !bad; i++) {
+      int ust = (pw[i] + align - 1) & ~(align - 1);
+      /* rows that carry decoded data: whole (scaled) blocks of the component; plane rows
+         beyond them exist only because the plane height is padded to the iMCU and are
+         not defined by either entry point */
+      int vi = i ? 1 : tjMCUHeight[ss] / 8, maxv = tjMCUHeight[ss] / 8;
+      int hblk = ((h * vi + maxv - 1) / maxv + 7) / 8, dcts = 8 * sf.num / sf.denom;
+      int valid = hblk * dcts < ph[i] ? hblk * dcts : ph[i];
+      int hi = i ? 1 : tjMCUWidth[ss] / 8, maxh = tjMCUWidth[ss] / 8;
+      int wblk = ((w * hi + maxh - 1) / maxh + 7) / 8;
+      int vcols = wblk * dcts < pw[i] ? wblk * dcts : pw[i];
+      for (y = 0; y < valid && !bad; y++)
+        if (memcmp(uni + off + (size_t)y * ust, planes[i] + (size_t)y * st[i], vcols)) { bad = 1; snprintf(why, sizeof(why), "unified buffer differs from per-plane output (plane %d row %d)", i, y); }
+      off += (size_t)ust * ph[i];
+    }
+    if (!bad && uni[usz] != 0x5A) { bad = 1; snprintf(why, sizeof(why), "write beyond tj3YUVBufSize"); }
+  }
+  /* (2) decode planes == direct decompress with fast upsampling */
+  if (!bad) {
+    p1 = (unsigned char *)malloc((size_t)sw * sh * ps); p2 = (unsigned char *)malloc((size_t)sw * sh * ps);
+    memset(p1, 1, (size_t)sw * sh * ps); memset(p2, 2, (size_t)sw * sh * ps);
+    if (tj3DecodeYUVPlanes8(hd, (const unsigned char * const *)planes, smode == 0 ? NULL : strides, p1, sw, 0, sh, pf) < 0) {
+      bad = 1; snprintf(why, sizeof(why), "tj3DecodeYUVPlanes8: %s", tj3GetErrorStr(hd));
+    } else {
+      tj3Set(hd, TJPARAM_FASTUPSAMPLE, 1);
+      if (tj3Decompress8(hd, jpeg, jsize, p2, 0, pf) < 0) { bad = 1; snprintf(why, sizeof(why), "tj3Decompress8: %s", tj3GetErrorStr(hd)); }
+      else {
+        for (y = 0; y < sh && !bad; y++) for (x = 0; x < sw * ps; x++) {
+          int ch = x % ps;
+          if ((pf == TJPF_RGBX || pf == TJPF_BGRX) && ch == 3) continue;
+          if ((pf == TJPF_XBGR || pf == TJPF_XRGB) && ch == 0) continue;
+          if (p1[(size_t)y * sw * ps + x] != p2[(size_t)y * sw * ps + x]) {
+            bad = 1; snprintf(why, sizeof(why), "decode-planes differs from fast-upsampling decompress at row %d byte %d (%d vs %d)", y, x, p1[(size_t)y * sw * ps + x], p2[(size_t)y * sw * ps + x]); break;
+          }
+        }
+      }
+    }
+  }
+  /* (3) raw-data decode at scale 1/1 */
+  if (!bad && sf.num == 1 && sf.denom == 1) {
+    struct jpeg_decompress_struct d; my_err_t e; int ci;
+    d.err = my_err_init(&e);
+    jpeg_create_decompress(&d);
+    if (!setjmp(e.jb)) {
+      JSAMPARRAY rows[3]; int mcuh;
+      jpeg_mem_src(&d, jpeg, (unsigned long)jsize);
+      jpeg_read_header(&d, TRUE);
+      d.raw_data_out = TRUE;
+      d.do_fancy_upsampling = FALSE;
+      jpeg_start_decompress(&d);
+      mcuh = d.max_v_samp_factor * DCTSIZE;
+      for (ci = 0; ci < d.num_components; ci++) {
+        int rh = d.comp_info[ci].v_samp_factor * DCTSIZE, r2;
+        rows[ci] = (JSAMPARRAY)malloc(sizeof(JSAMPROW) * rh);
+        for (r2 = 0; r2 < rh; r2++) rows[ci][r2] = (JSAMPROW)malloc(d.comp_info[ci].width_in_blocks * DCTSIZE);
+      }
+      while (d.output_scanline < d.output_height && !bad) {
+        int base = d.output_scanline;
+        jpeg_read_raw_data(&d, rows, mcuh);
+        for (ci = 0; ci < d.num_components && !bad; ci++) {
+          int vs = d.comp_info[ci].v_samp_factor, rh = vs * DCTSIZE, r2;
+          int prow0 = base * vs / d.max_v_samp_factor;
+          for (r2 = 0; r2 < rh && !bad; r2++) {
+            int pr = prow0 + r2;
+            if (pr >= ph[ci]) break;
+            if (memcmp(rows[ci][r2], planes[ci] + (size_t)pr * st[ci], pw[ci])) { bad = 1; snprintf(why, sizeof(why), "plane %d row %d differs from raw-data decode", ci, pr); }
+          }
+        }
+      }
+      jpeg_abort_decompress(&d);
+    } else { bad = 1; snprintf(why, sizeof(why), "libjpeg raw decode error %d", e.code); }
+    jpeg_destroy_decompress(&d);
+  }
+verdict:
+  if (bad) printf("O fail yuvcontent %s\n", why); else printf("O ok\n");
+done:
+  for (i = 0; i < 3; i++) free(planes[i]);
+  free(uni); free(p1); free(p2); free(rgb); tj3Free(jpeg);
+  tj3Destroy(hc); tj3Destroy(hd);
+  return 1;
+}
+
 static int dispatch_c20(toks_t *t)
 {
   const char *op = t->tok[0];
   if (!strcmp(op, "yuvgeom")) return op_yuvgeom(t);
   if (!strcmp(op, "jbuf")) return op_jbuf(t);
   if (!strcmp(op, "scaled")) return op_scaled(t);
+  if (!strcmp(op, "yuvcontent")) return op_yuvcontent(t);
   return 0;
 }
